@@ -28,13 +28,15 @@ class C03(Engine):
     rule = ("run i = seeded byte map (1-5 segments; lengths biased to 1,15,16,17,255,256,257; gaps 0,1,15,16,65535,65536; bases at "
             "0, 0xfff0, 0x10000, 0xfffff0, 0x1000000, 0x7ffffff0, near 2^32; CPUs with 1/2/4/8 bytes per address, both byte orders, "
             "all three S-record sizes; optional entry point and exported labels) rendered with .org/.db only -> real naken_asm -type t "
-            "for t in hex,srec,elf,wdc,uf2,bin onto SimFs with a stale longer file at the output path -> (a) independent decoder from the "
+            "for t in hex,srec,elf,wdc,uf2,bin,macho (and amiga for 68000 images) onto SimFs with a stale longer file at the output path -> (a) independent decoder from the "
             "published format, (b) real naken_util load + print of windows around every segment edge + symbols.  "
             "Distinct = distinct seam-event hash; non-trivial = the file crossed between two simulated process lifetimes through SimFs "
             "(every writer->reader pair does) with at least two segments or a stale file present.")
     assumptions = [".org and .db with literal byte values are trusted to place bytes (the only assumption about the assembler proper)",
-                   "elf/uf2/bin serialise the whole span: extra decoded addresses must lie inside the span/padding and hold 0",
-                   "wdc is only asked to carry addresses < 2^24, and S-records of a CPU with fixed 24-bit records only addresses < 2^24",
+                   "elf/uf2/bin/macho/amiga serialise the whole span: extra decoded addresses must lie inside the span/padding and hold 0",
+                   "wdc is only asked to carry addresses < 2^24",
+                   "an Amiga hunk and a relocatable Mach-O object carry no address: bytes are compared from the lowest address up, load-back only for images at 0",
+                   "some runs use a tall source (image on source lines around 2^15/2^16/2^17)",
                    "uf2 blocks of another familyID (the RP2350 0x10ffff00 filler) are ignored as the UF2 specification tells a boot loader to"]
 
     def directed(self):
